@@ -159,7 +159,9 @@ for _pid, _text, _note in [
     ("C18", "Bounded stand-in: acquisition functions against closed forms and finite-difference gradients, proposals inside the bounds, "
             "add_evaluation appends exactly the new evaluation, caller arrays untouched.", "bounded only"),
     ("C19", "Bounded stand-in: KDE and UnimodalPdf normalisation, cdf, mode, highest-density intervals and moments against quadrature of "
-            "the estimated density, and their covariance under shifting/rescaling of the data over scales 1e-6..1e6 and locations up to 1e6 sigma.",
+            "the estimated density, and their covariance under shifting/rescaling of the data over scales 1e-6..1e6 and locations up to 1e6 sigma. "
+            "The kernel estimator's density and cdf being the exact kernel sums up to the stated truncation (the C12 contracts, proof layer) "
+            "is checked under this property too, but the property as a whole is decided by the bounded layer only.",
      "bounded only by design: the quantities are outputs of numerical optimisers/quadrature and the named defect class is floating-point "
      "cancellation, which does not exist over the reals"),
 ]:
